@@ -813,3 +813,101 @@ Section OrdIndep.
     split; intros E; inversion E as [E']; [apply I1 in E'|apply I2 in E']; try lia; subst; reflexivity.
   Qed.
 End OrdIndep.
+
+(* ================================== what the freedom of the sort oracle can change *)
+
+(* a second admissible oracle: ties come out in the reverse of their original order *)
+Lemma rev_isort_sorter_ok (key : nat -> nat -> Z) :
+  sorter_ok (fun a l => isort (key_lt key a) (rev l)) (key_lt key).
+Proof.
+  intros a l. destruct (isort_sorter_ok key a (rev l)) as [P S]. split; [|exact S].
+  rewrite P. apply Permutation_sym. apply Permutation_rev.
+Qed.
+
+Lemma sorted_perm_unique (key : nat -> nat -> Z) a : forall l1 l2,
+  Permutation l1 l2 -> NoDup l1 ->
+  (forall x y, In x l1 -> In y l1 -> key a x = key a y -> x = y) ->
+  sorted_by (key_lt key) a l1 -> sorted_by (key_lt key) a l2 -> l1 = l2.
+Proof.
+  unfold sorted_by. induction l1 as [|x t1 IH]; intros l2 P Hnd Hinj S1 S2.
+  - apply Permutation_nil in P. congruence.
+  - destruct l2 as [|y t2]; [apply Permutation_sym, Permutation_nil in P; discriminate|].
+    inversion S1 as [|? ? Hx S1']; subst. inversion S2 as [|? ? Hy S2']; subst.
+    assert (Exy : x = y).
+    { assert (Hxin : In x (y :: t2)) by (eapply Permutation_in; [exact P|left; reflexivity]).
+      assert (Hyin : In y (x :: t1)) by (eapply Permutation_in; [apply Permutation_sym; exact P|left; reflexivity]).
+      destruct Hxin as [E|Hxt]; [congruence|]. destruct Hyin as [E|Hyt]; [congruence|].
+      rewrite Forall_forall in Hx, Hy. specialize (Hx y Hyt). specialize (Hy x Hxt).
+      unfold key_lt in Hx, Hy. apply Z.ltb_ge in Hx. apply Z.ltb_ge in Hy.
+      apply Hinj; [left; reflexivity|right; exact Hyt|lia]. }
+    subst y. f_equal. inversion Hnd; subst.
+    apply IH; try assumption; [eapply Permutation_cons_inv; exact P|].
+    intros u v Hu Hv. apply Hinj; right; assumption.
+Qed.
+
+Lemma NoDup_app_l {X} (l1 l2 : list X) : NoDup (l1 ++ l2) -> NoDup l1.
+Proof.
+  induction l1 as [|a t IH]; cbn [app]; intros H; [constructor|]. inversion H as [|? ? Hn Ht]; subst.
+  constructor; [|apply IH; exact Ht]. intros Hc. apply Hn. apply in_or_app; left; exact Hc.
+Qed.
+
+Lemma NoDup_concat_In {X} (ls : list (list X)) l : NoDup (concat ls) -> In l ls -> NoDup l.
+Proof.
+  induction ls as [|h t IH]; intros H Hin; [destruct Hin|]. cbn [concat] in H.
+  destruct Hin as [<-|Hin]; [eapply NoDup_app_l; exact H|apply IH; [eapply NoDup_app_r; exact H|exact Hin]].
+Qed.
+
+Section SorterIndep.
+  Variable A : arith.
+  Variable D npts : nat.
+  Variable wts : list (num A).
+  Variable blk : list nat -> list nat.
+  Variable key : nat -> nat -> Z.
+  Variable sorter1 sorter2 : nat -> list nat -> list nat.
+  Hypothesis H1 : sorter_ok sorter1 (key_lt key).
+  Hypothesis H2 : sorter_ok sorter2 (key_lt key).
+  (* no ties: along every axis the points have pairwise distinct coordinates *)
+  Hypothesis Hinj : forall a x y, (x < npts)%nat -> (y < npts)%nat -> key a x = key a y -> x = y.
+
+  Lemma sorters_agree a l : NoDup l -> Forall (fun i => (i < npts)%nat) l -> sorter1 a l = sorter2 a l.
+  Proof.
+    intros Hnd Hin. destruct (H1 a l) as [P1 S1]. destruct (H2 a l) as [P2 S2].
+    apply (sorted_perm_unique key a); try assumption.
+    - rewrite P1. apply Permutation_sym. exact P2.
+    - eapply Permutation_NoDup; [apply Permutation_sym; exact P1|exact Hnd].
+    - rewrite Forall_forall in Hin. intros x y Hx Hy. apply Hinj; apply Hin; (eapply Permutation_in; [exact P1|assumption]).
+  Qed.
+
+  Lemma mj_rec_sorters : forall sch a perm, NoDup perm -> Forall (fun i => (i < npts)%nat) perm ->
+    mj_rec A D npts wts sorter1 blk sch a perm = mj_rec A D npts wts sorter2 blk sch a perm.
+  Proof.
+    induction sch as [ns mods next IH] using scheme_ind2. intros a perm Hnd Hin. rewrite !mj_rec_eq.
+    destruct (ns =? 0); [reflexivity|]. destruct (_ && _); [reflexivity|]. cbv zeta.
+    rewrite <- (sorters_agree a perm Hnd Hin).
+    destruct (H1 a perm) as [P1 _]. set (sorted := sorter1 a perm) in *.
+    destruct (csp A wts sorted mods (blk sorted)) as [pos| | |]; cbn [bind]; try reflexivity.
+    destruct (split_many sorted pos 0) as [subs| | |] eqn:Es; cbn [bind]; try reflexivity.
+    destruct next as [children|]; [|reflexivity].
+    apply split_many_ok in Es as [Hcat _].
+    assert (Hsubs : forall s, In s subs -> NoDup s /\ Forall (fun i => (i < npts)%nat) s).
+    { intros s Hs. split.
+      - eapply NoDup_concat_In; [|exact Hs]. rewrite Hcat. eapply Permutation_NoDup; [apply Permutation_sym; exact P1|exact Hnd].
+      - rewrite Forall_forall in *. intros x Hx. apply Hin. eapply Permutation_in; [exact P1|].
+        rewrite <- Hcat. eapply in_concat_of; eassumption. }
+    specialize (IH children eq_refl). clear - IH Hsubs. revert subs Hsubs.
+    induction children as [|c t IHc]; intros subs Hsubs; destruct subs as [|s subs]; cbn [go_ch]; try reflexivity.
+    inversion IH as [|? ? Pc Pt]; subst. destruct (Nat.eqb D 0); [reflexivity|].
+    destruct (Hsubs s (or_introl eq_refl)) as [Ns Fs]. rewrite (Pc _ s Ns Fs).
+    destruct (mj_rec A D npts wts sorter2 blk c (S a mod D) s); cbn [bind]; try reflexivity.
+    rewrite (IHc Pt subs); [reflexivity|]. intros s' Hs'. apply Hsubs. right; exact Hs'.
+  Qed.
+
+  (* without ties the sort oracle has no freedom: the result is the same, for every arithmetic *)
+  Lemma mj_sorter_indep_no_ties root ord k m p0 :
+    multi_jagged A D npts wts sorter1 blk root ord k m p0 = multi_jagged A D npts wts sorter2 blk root ord k m p0.
+  Proof.
+    unfold multi_jagged. destruct (partition_scheme A root k m); cbn [bind]; try reflexivity.
+    unfold mj_with_scheme. rewrite mj_rec_sorters; [reflexivity|apply seq_NoDup|].
+    rewrite Forall_forall. intros x Hx. apply in_seq in Hx. lia.
+  Qed.
+End SorterIndep.
